@@ -236,7 +236,7 @@ class HistKind(Kind):
     rule = ('MIADistinguisher(bin_edges, partitions, precision).update*/compute and MIAAttack / MIAReverse run/process + results: '
             'accumulators compared exactly with the model histogram and the spec count, results with the model formula; uniform '
             'edges of widths 1, 3, 7, 49, 0.1, 2^-k with 1..16 bins, samples on every edge / one ulp inside and outside / beyond '
-            'both ends in float64, float32 and integer traces, class sets with gaps, permutations, repeated and undeclared '
+            'both ends in float64, float32 and integer traces, NaN (in every class and sample position, whole-NaN columns) and +-inf samples in float traces, class sets with gaps, permutations, repeated and undeclared '
             'values, independent (product) designs, empty bins and classes, columns with no sample in range; '
             'non-trivial = at least two bins and two classes are populated in some entry')
 
@@ -294,13 +294,18 @@ class HistKind(Kind):
 
     def _probe_case(self, rng, edges, tdtype, family, edges_kind='list'):
         vals = edge_probe_values(edges, tdtype)
-        n = len(vals)
         nparts = rng.choice([2, 3, 4, 9])
         parts = list(range(nparts))
+        isfloat = np.dtype(tdtype).kind == 'f'
+        if isfloat:          # samples that are not numbers: NaN once per class (and per undeclared value), +inf, -inf
+            vals = vals + [float('nan')] * (nparts + 1) + [float('inf'), float('-inf')]
+        n = len(vals)
         col0 = vals
         col1 = list(reversed(vals))
         col2 = vals[n // 3:] + vals[:n // 3]
         traces = [[col0[i], col1[i], col2[i]] for i in range(n)]
+        if isfloat and rng.random() < 0.35:
+            traces = [r + [float('nan')] for r in traces]                 # a column holding nothing but NaN
         data = [[i % (nparts + 1), rng.randrange(nparts)] for i in range(n)]      # value nparts is undeclared
         prec = rng.choice(['uint32', 'uint32', 'float64', 'float32'])
         return base_case(edges=edges, edges_kind=edges_kind, parts=parts, tdtype=tdtype, precision=prec,
@@ -402,6 +407,8 @@ class HistKind(Kind):
                     x = edges[0] - width + rng.random() * (edges[-1] - edges[0] + 2 * width)
                 if dt.kind == 'f':
                     x = float(dt.type(x))
+                    if rng.random() < 0.06:
+                        x = rng.choice([float('nan'), float('nan'), float('inf'), float('-inf')])
                 else:
                     info = np.iinfo(dt)
                     x = int(min(max(round(x), info.min), info.max))
@@ -445,6 +452,8 @@ class HistKind(Kind):
         G = rng.randint(2, 4) if mode == 'attack' else 0
         parts = list(range(rng.choice([4, 8])))                       # data are (plaintext ^ guess) & 7: class 4..7 undeclared when 4 classes
         traces = [[rng.choice(edges + [edges[0] - 1, edges[-1] + 1, edges[0] + width / 2, edges[-1] - width / 4]) for _ in range(S)] for _ in range(n)]
+        for _ in range(rng.randint(1, 3)):
+            traces[rng.randrange(n)][rng.randrange(S)] = rng.choice([float('nan'), float('inf'), float('-inf')])
         pt = [[rng.randrange(8) for _ in range(W)] for _ in range(n)]
         return base_case(mode=mode, edges=edges, parts=parts, batches=[{'traces': traces, 'data': pt}], guesses=G,
                          step=rng.choice([0, 0, max(1, n // 3)]), precision=rng.choice(['uint32', 'float32', 'float64']),
@@ -485,7 +494,7 @@ class HistKind(Kind):
                     da = np.array(b['data'], dtype=case['ddtype'])
                     before = (tr.copy(), da.copy())
                     d.update(tr, da)
-                    if not (np.array_equal(tr, before[0]) and np.array_equal(da, before[1])):
+                    if not (tr.tobytes() == before[0].tobytes() and da.tobytes() == before[1].tobytes()):
                         return {'raised': 'InputModified', 'msg': 'update() modified its arguments'}
                 if auto:
                     extra_obs = {'edges': [float(v) for v in np.asarray(d.bin_edges, dtype='float64')],
